@@ -1083,8 +1083,15 @@ class Grammar(PGFile):
             if isinstance(term.recognizer, StringRecognizer):
                 match = keyword_rec(term.recognizer.value, 0)
                 if match == term.recognizer.value:
+                    # The keyword text is matched literally. `\b` rejects a
+                    # neighbouring word character only next to a word
+                    # character; next to anything else a lookaround is used.
+                    before = r"\b" if re.match(r"\w", match[0]) else r"(?<!\w)"
+                    after = r"\b" if re.match(r"\w", match[-1]) else r"(?!\w)"
                     term.recognizer = RegExRecognizer(
-                        rf"\b{match}\b", ignore_case=term.recognizer.ignore_case
+                        before + re.escape(match) + after,
+                        name=match,
+                        ignore_case=term.recognizer.ignore_case,
                     )
                     term.keyword = True
 
